@@ -116,6 +116,10 @@ def run(F, R):
     # whatever the used ring shows next (another request's device addresses would be paired with these buffers) - C03.E8
     from .C03 import e8_helper_token
     e8_helper_token(F, R, M, _roles, rule='P16')
+    # P17: a completion is consumed only together with the release (unshare, copy-back) of its chain: a poll refused with a wrong
+    # token or nothing ready advances nothing (C03.E1 / E2)
+    from .C03 import pop_rule
+    pop_rule(F, R, 'P17')
     p14_pinned_buffers(F, R, M, _roles)
     p15_owned_buffers_parked(F, R, M, _roles)
     # P13: a buffer is unshared in the direction it was shared in: the block driver's completion calls present the same
